@@ -266,7 +266,9 @@ def run_heatup(case, res):
     rng = np.random.default_rng(case['seed'])
     nd = int(wl.choose(rng, [1, 2, 2, 3]))
     P, feats = wl.single_assembly(rng, tdep=False, max_rings=4, lf=False,
-                                  gap='none', regions=False, n_duct=nd,
+                                  gap='none',
+                                  regions=bool(rng.random() < 0.5),
+                                  n_duct=nd,
                                   vel=wl.loguniform(rng, 0.3, 5.0),
                                   length=0.4)
     for m in P['types'].values():
@@ -281,7 +283,23 @@ def run_heatup(case, res):
     def on_step(rec):
         reg = rec['reg']
         pw = rec['pow'] or {}
-        if not hasattr(reg, 'subchannel'):
+        if not reg.is_rodded:
+            # unrodded region (below / above the bundle): everything the
+            # profile holds at this height goes to the region's coolant
+            dz = rec['dz']
+            T0, T1 = rec['pre']['coolant_int'], rec['post']['coolant_int']
+            n = len(T0)
+            dH = float(np.sum(reg.flow_rate / n * cp * (T1 - T0)))
+            q = sum(float(np.sum(v)) for v in pw.values() if v is not None)
+            res.close('P6_coolant_heatup_equals_power_used', dH - dz * q,
+                      dz * abs(q) + abs(dH)
+                      + 1e-6 * reg.flow_rate * cp * 700.0, 1e-8,
+                      'coolant heat-up of an unrodded region in a step != '
+                      'power of the profile at that height (adiabatic wall)',
+                      dict(key, region=reg.model),
+                      {'z': rec['z1'], 'dH': dH, 'heat': dz * q,
+                       'kinds': sorted(k for k, v in pw.items()
+                                       if v is not None)})
             return
         if reg.n_bypass and not np.sum(reg.byp_flow_rate) > 0:
             # stagnant gap between walls: heat crosses it with a lag that
